@@ -23,7 +23,7 @@ enum Case {
     /// `chain[0]` is the type the bits are first built as; each later entry is a conversion.
     Chain { bits: BitsDesc, chain: Vec<T>, by_from: bool },
     /// Run list (gap, len) pairs + tail; each run is set in the given pieces; `set_len_mode`: 0 none,
-    /// 1 set_len(current length) before every run, 2 set_len(next start) before every run.
+    /// 1 set_len(current length) before every run, 2 set_len(next start) before every run, 3 set_len(current length) before every piece.
     Decomp { pairs: Vec<(usize, usize)>, tail: usize, pieces: Vec<Vec<usize>>, set_len_mode: u8 },
 }
 
@@ -166,6 +166,10 @@ fn check_decomp(ctx: &mut Ctx, pairs: &[(usize, usize)], tail: usize, pieces: &[
             }
             let mut p = start;
             for &piece in &pieces[k] {
+                if set_len_mode == 3 {
+                    // a no-op by documentation, also in the middle of a run that is still being extended
+                    b.set_len(b.len());
+                }
                 if let Err(e) = b.try_set(p, piece) {
                     return Some(format!("try_set({}, {}) refused: {}", p, piece, e));
                 }
@@ -240,6 +244,9 @@ fn explore(ctx: &mut Ctx) {
         BitsDesc::Runs { pairs: vec![(0, 1), (1 << 48, 1), ((1 << 48) - 1, 2)], tail: 1 << 47 },
         BitsDesc::Runs { pairs: vec![(1 << 60, 3), (1 << 59, 1), (1, 1)], tail: 1 << 61 },
         BitsDesc::Runs { pairs: vec![(7, 1), (1 << 62, 2)], tail: (1 << 62) - 20 },
+        // total length exactly usize::MAX, the last run ends at the last position
+        BitsDesc::Runs { pairs: vec![(5, 1), (u64::MAX - 9, 3)], tail: 0 },
+        BitsDesc::Runs { pairs: vec![(0, 2), (u64::MAX - 3, 1)], tail: 0 },
     ];
     for bits in &huge {
         if !ctx.mine(bits) {
@@ -282,7 +289,7 @@ fn explore(ctx: &mut Ctx) {
         loop {
             let pieces: Vec<Vec<usize>> = idx.iter().enumerate().map(|(k, &i)| per_run[k][i].clone()).collect();
             for tail in [0usize, 2] {
-                for mode in 0..3u8 {
+                for mode in 0..4u8 {
                     job += 1;
                     if ctx.mine_index(job) {
                         ctx.count("decompositions", 1);
